@@ -17,21 +17,110 @@ COMMON_ASSUMPTIONS = [
 REGISTRY = {}
 
 
-def prop(pid, rules, explanation, extra_assumptions=()):
-    REGISTRY[pid] = {"rules": rules, "explanation": explanation, "assumptions": COMMON_ASSUMPTIONS + list(extra_assumptions)}
+def prop(pid, rules, explanation, extra_assumptions=(), technique="static analysis of MIR"):
+    REGISTRY[pid] = {"rules": rules, "explanation": explanation, "assumptions": COMMON_ASSUMPTIONS + list(extra_assumptions), "technique": technique}
 
 
+from . import rules_order as RO, rules_tower as RT, rules_plugin as PL, rules_panic as PN, rules_sql as SQ, rules_wire as WT, rules_config as CF, rules_outage as OUT
+
+STATIC = ("This check decides structural clauses that are necessary conditions of the property, for ALL paths / thread pairs / table rows of the "
+          "compiled program (MIR of /repo's working tree); it does not decide the behavioural statement as a whole. ")
+
+prop("C01", [RO.rule_OR1, RO.rule_OR2_watcher, RO.rule_OR2_responder, LK.rule_AT1, RO.rule_EF1, RO.rule_EF3],
+     STATIC + "Decided: listener order Gatekeeper>Watcher>Responder (OR1); the breach pipeline is complete on every path — cache update, DB intersection, "
+     "decrypt with the matched dispute's txid, hand-over to the responder, node decision, tracker iff accepted, failures and only failures to the delete list, "
+     "no early loop exit (OR2w/OR2r); no accepted-but-unwatched window against the block thread (AT1); cache window 6 / index 100 / locator 16 bytes (EF3); "
+     "breach provenance (EF1). NOT decided: that the right set of breaches is computed for every history (SQL IN semantics, collisions, node verdict mapping).",
+     technique="MIR path-fact dataflow + origin tracing + lock-span analysis")
+prop("C02", [RO.rule_EF1, RO.rule_OR2_responder, RO.rule_OR2_gatekeeper, RO.rule_OR1, SQ.rule_SQ1],
+     STATIC + "Decided: only Carrier::send_transaction reaches sendrawtransaction, and every transaction handed to it is either the Ok payload of "
+     "decrypt(blob, txid(dispute)) paired with that dispute, or a field of a stored tracker (EF1); tracker iff accepted, both disconnect handlers purge their index (OR2r); "
+     "owner removal precedes Watcher/Responder and cascades in the DB, foreign keys switched on in the production constructor (OR1, OR2g, SQ1). "
+     "NOT decided: that exactly the disconnected block's entries are purged (container contents, C19).",
+     technique="who-may-call + interprocedural origin tracing + SQL schema tables")
+prop("C03", [RO.rule_OR3, LK.rule_CBS, SQ.rule_SQ3, SQ.rule_SQ1, LK.rule_AT2, RO.rule_OR2_gatekeeper],
+     STATIC + "Decided (ordering of durable effects, what crash-safety rests on): last-known-block written by one function only on Ok(Better(tip)) of the poll that delivered the blocks; "
+     "bootstrap poll before any API is spawned; tower key regenerated only if --overwritekey or none stored (OR3); slots charged (successfully) before the store (CBS); "
+     "multi-statement writes are one committed sqlite transaction (SQ3); cascades on (SQ1); one critical section and one DB delete per balance update (AT2); "
+     "memory purge always followed by the DB purge (OR2g). NOT decided: enumeration of crash points, replay equivalence, partial-progress semantics of the SPV client.",
+     technique="must-precede / must-follow path analysis on MIR + SQL statement tables")
+prop("C04", [RO.rule_OR2_responder, RO.rule_EF2, RO.rule_EF3],
+     STATIC + "Decided: Responder connect/disconnect pipelines complete on all paths; reorg handler gated by coming_from_reorg and re-announces dispute then penalty of the stored tracker; "
+     "rejected re-submissions queued for the no-refund delete; completion guard `current_height - h == IRREVOCABLY_RESOLVED` on ConfirmedIn(h); rebroadcast threshold "
+     "InMempoolSince(height - 6) (OR2r); refund flag constant and true exactly for check_confirmations' list (EF2); constants 100/6 (EF3). "
+     "NOT decided: arithmetic over chain evolutions (off-by-one of the completion height, cadence, status after a reorg of depth d).",
+     technique="MIR path facts + comparison-shape and constant-origin rules")
+prop("C05", [PL.rule_PL1, PL.rule_PL3, PL.rule_PL7, PN.rule_PN_plugin],
+     STATIC + "Decided: every reply class of the per-tower loop ends in a durable record (PL1); pending->accepted/invalid adds before it deletes (PL3); mutators persist on the known-tower path, "
+     "only mutators write, pending work is re-queued at start-up and on idle wake-up, loaders agree (PL7); no tower reply or repeated notification reaches an unwrap (PNp). "
+     "NOT decided: SIGKILL durability, exactly-one-of accounting across towers over a history.",
+     technique="reply-class enumeration by CFG reachability + classified-unwrap table + SQL insert classification")
+prop("C06", [RT.rule_AU1],
+     STATIC + "Decided for add_appointment / get_appointment / get_subscription_info: nothing that takes a lock (reads or writes tower state) is reachable before authenticate_user succeeded and "
+     "has_subscription_expired was found false; the expired path is effect-free; every user id flowing into UUID::new / ExtendedAppointment::new / add_update_appointment / get_user_info / "
+     "has_subscription_expired is the Ok payload of authenticate_user; the signed message is the request-specific one and its template equals what the client signs; "
+     "authenticate_user returns Ok only for a recovered key that is a registered user. NOT decided: cryptographic claims, isolation over multi-user histories.",
+     technique="branch-fact dataflow + origin tracing (identity provenance) + literal cross-check")
+prop("C07", [RT.rule_SL, LK.rule_AT2, RO.rule_EF2, RO.rule_EF3, SQ.rule_SQ3],
+     STATIC + "Decided: the only subtraction of slots is guarded by `required - used <= available` and equals available - (slots(new) - slots(stored for this uuid)); renewal uses checked_add; "
+     "refund adds slots(stored blob) and is persisted in the deletion's transaction; one critical section per balance update; only completion refunds; one divisor (2048) at all charge/refund sites; "
+     "the balance reported is the one computed and persisted. NOT decided: the conservation law over histories, the float slot formula per blob length.",
+     technique="comparison/arithmetic shape rules over origin terms + lock spans")
+prop("C08", [RT.rule_RC, WT.rule_WT3, SQ.rule_SQ2],
+     STATIC + "Decided: an appointment receipt is returned only on paths that stored the appointment / handed it to the responder, is built from the same ExtendedAppointment (request signature, "
+     "height at acceptance) and is signed with the tower key; registration receipts are built from the persisted record; gRPC responses map like-named fields (RC); signed layouts cover every field "
+     "once with at most one variable-length component (WT3); updates rewrite all mutable columns, inserts/updates bind parameters in column order (SQ2). NOT decided: signature validity, byte-for-byte read-back.",
+     technique="dominance + field-level origin tracing + SQL/bind-order tables")
+prop("C09", [RT.rule_SB, RO.rule_OR2_gatekeeper, RO.rule_OR1, SQ.rule_SQ1],
+     STATIC + "Decided: expired = (height >= subscription_expiry) reporting that expiry; outdated = (block_height >= subscription_expiry + expiry_delta); renewal = checked_add(expiry, duration).unwrap_or(MAX) "
+     "on the existing-user arm; new user = (slots, height, height + duration); disconnect stores height - 1; purge pipeline + cascade + listener order. NOT decided: behaviour across reorg histories and boundary configurations.",
+     technique="comparison-shape rules over closure-resolved origin terms")
 prop("C10", [LK.rule_lock_classes, LK.rule_AT1, LK.rule_AT2, LK.rule_AT3, LK.rule_LK0, LK.rule_LK1],
-     "Decides the lock-scope facts serialisability rests on, for all paths and all pairs of threads: AT1 (cache look-up and "
-     "store in add_appointment are one critical section of the locator-cache lock, and the block thread updates the cache before "
-     "querying the DB: no accepted-but-unwatched window), AT2 (each balance read-modify-write is one critical section), AT3 "
-     "(charge and store atomic against an identical concurrent submission), LK0/LK1 (no two operations can wait on each other). "
-     "NOT decided: equivalence of final states to some sequential order (needs execution).")
-prop("C11", [LK.rule_lock_classes, LK.rule_LK0, LK.rule_LK1, LK.rule_LK2],
-     "Decides, for all pairs of threads and all call paths: no re-entrant acquisition (LK0), no lock-order cycle between concurrently "
-     "runnable threads (LK1), condvar wait discipline (LK2). NOT decided: absence of panics in general, liveness after arbitrary histories.")
-prop("C12", [LK.rule_LK2],
-     "Decides the wake-up structure of the bitcoind-outage mechanism (LK2). NOT decided: that a retried submission eventually succeeds; timing.")
+     STATIC + "Decided, for all paths and all pairs of threads: AT1 (cache look-up and store are one critical section of the locator-cache lock, block thread updates the cache before querying the DB), "
+     "AT2 (each balance read-modify-write is one critical section), AT3 (charge and store atomic against an identical concurrent submission), LK0/LK1 (no two operations can wait on each other). "
+     "NOT decided: equivalence of final states to some sequential order (needs execution).",
+     technique="guard-liveness dataflow on MIR (lock sets), lock-order graph with thread-root reachability")
+prop("C11", [LK.rule_lock_classes, LK.rule_LK0, LK.rule_LK1, LK.rule_LK2, PN.rule_PN_tower],
+     STATIC + "Decided: no re-entrant acquisition (LK0), no lock-order cycle between concurrently runnable threads (LK1), condvar wait discipline (LK2), and every unwrap/expect reachable from an API or chain "
+     "thread root classified: request-derived ones validated by the HTTP layer, replayed inserts guarded by an existence test in the same critical section, look-ups justified in the same critical section (PNt, "
+     "each labelled with the locks held, i.e. what a panic would poison). NOT decided: absence of panics in general (sqlite I/O), liveness after arbitrary histories.",
+     technique="lock-order graph + condvar wake-up reachability + classified-unwrap table with same-section discharge")
+prop("C12", [OUT.rule_OUT, LK.rule_LK2],
+     STATIC + "Decided: both Carrier RPC wrappers wait for reachability first; a transport error flags the outage and re-issues the same call, never yields a verdict; the monitor sets the flag true + notify_all "
+     "on every Ok poll and false on transient errors; every public handler enters the Watcher only after the 503 gate (OUT); the waker can reach its notify (LK2). NOT decided: that retries eventually succeed; timing.",
+     technique="variant-fact dataflow on error arms + call-graph reachability of the only notifier")
+prop("C13", [PL.rule_PL6, PL.rule_PL2, PL.rule_PL7, PL.rule_PL8],
+     STATIC + "Decided: who may feed / wake / create / start a retrier (one per tower, start only if stopped with pending data, wake only idle ones, Stale only when retryable and no retrier) (PL6); every reply class in "
+     "Retrier::run makes progress or leaves; run only under the bounded exponential back-off built from the configured values (PL2); reload on start and on idle wake-up (PL7); each outcome arm sets the documented status, "
+     "predicate tables (PL8). NOT decided: delays, the back-off schedule, 'within the configured delays'.",
+     technique="gate facts on channel sends + CFG progress analysis + enum predicate tables by abstract evaluation")
+prop("C14", [PL.rule_PL4, PL.rule_PL5, PN.rule_PN_plugin, PL.rule_PL1, PL.rule_PL2],
+     STATIC + "Decided: add_update_tower only under receipt.verify(tower_id) == true of the same receipt, strict extension of expiry and slots for a known tower; appointment receipts accepted only if the recovered signer "
+     "equals the tower id, otherwise SignatureError -> proof persisted before the status flips -> permanent on the retry path (PL4); sends only to reachable towers, status predicate tables (PL5); no reply class panics (PNp), "
+     "is left unrecorded (PL1) or wedges the retry loop (PL2). NOT decided: 'any reply' for panics inside reqwest/serde.",
+     technique="guard facts at call sites + origin equality of verified/recorded values + classified-unwrap table")
+prop("C15", [WT.rule_HT1, PN.rule_PN2],
+     STATIC + "Decided: the tonic codes constructible in the public handlers are all mapped by explicit arms of match_status to the documented error constants, UNEXPECTED_ERROR only on the catch-all; handle_rejection / ApiError "
+     "emit only documented codes; four POST routes with their body limits, one shared recover(handle_rejection); empty/size checks precede forwarding (HT1); what the internal service unwraps on request data is validated "
+     "by the HTTP handler before the gRPC call (PN2). NOT decided: promptness, 5xx freedom inside warp/tonic, state unchanged after non-200.",
+     technique="finite code tables extracted from MIR switches + validated-before-forwarded facts")
+prop("C16", [WT.rule_WT1, WT.rule_WT2, WT.rule_WT3, RT.rule_AU1],
+     STATIC + "Decided: per endpoint both sides (de)serialise the same generated message type (so names, renames and adapters agree by construction); the two ApiError structs are twins; status Display/FromStr are inverse "
+     "bijections and agree with the discriminants; custom serde adapters are inverse pairs; signed layouts determine their fields; the signed message templates agree. NOT decided: round-trip identity over all values, body-size limit vs largest request.",
+     technique="type-argument agreement at (de)serialisation call sites + table extraction")
+prop("C18", [PL.rule_PL7, SQ.rule_SQ1, SQ.rule_SQ3, PL.rule_PL3],
+     STATIC + "Decided: every mutator changes memory and disk together and only mutators do; status reconstruction agrees between the two loaders; client schema cascades from towers (and appointments) with foreign keys on; "
+     "multi-statement writes are transactions; add-before-delete. NOT decided: the reference-counting rule of delete_pending_appointment over operation sequences; memory == disk after histories.",
+     technique="who-may-write/call tables + must-follow analysis + SQL schema tables")
+prop("C20", [CF.rule_CF, RO.rule_OR3],
+     "Decided (nearly the whole statement, exhaustively over the finite tables): per-option precedence CLI > file > default; overwrite_key/force_update from the command line only; documented numeric defaults; "
+     "the 8-row credential table and that verify refuses Invalid/Multiple; the network->port table, normalisation, port defaulting only when unset; unknown network refused; main verifies before opening the DB and exits on Err.",
+     technique="origin of field writes + abstract evaluation of decision tables over finite domains")
+
+NOT_APPLICABLE = [
+    ("C17", "values computed by ChaCha20-Poly1305 / SHA-256 / ECDSA over all inputs: nothing about round-trip or tamper rejection is visible in the shape of cryptography.rs beyond which library functions are called; the one structural clause (locator = first 16 bytes of the txid) is checked as EF3 under C01"),
+    ("C19", "an invariant relating the contents of four containers after arbitrary operation sequences (incl. an arithmetic off-by-one on `tip`): no rule of this family can bound it without executing or symbolically evaluating the methods"),
+]
 
 
 def main(argv):
